@@ -1,6 +1,7 @@
 //@@ unit CONN
 //@@ gsubst `definitions::Error` => `AmqpError` rule=R11
 //@@ gsubst `transport::Error` => `TransportError` rule=R11
+//@@ gsubst `<connection::Connection as endpoint::Connection>::Error` => `ConnectionInnerError` rule=R2
 #![feature(allocator_api)]
 #![allow(unused_imports, unused_variables, dead_code, unused_mut, unused_parens)]
 use vstd::prelude::*;
